@@ -67,7 +67,8 @@ def run(case, ctx):
         out.label('--no-stderr')
     out.nontrivial = (bool(case['stdout']) or bool(case['files'])) and (
         has_special(case))
-    before = wd.snapshot(exclude=('test_x.py', 'ref'))
+    wd.generate_neighbour()
+    before = wd.snapshot(exclude=('test_x.py', os.path.join('ref', 'x')))
     r = wd.generate()
     if r.returncode != 0:
         tail = (r.stderr or r.stdout)[-600:]
@@ -121,8 +122,22 @@ def run(case, ctx):
                     or 'exit-%d' % r2.returncode,
                     'generated script exits %d: %s'
                     % (r2.returncode, (r2.stderr or r2.stdout)[-700:]))
-    after = wd.snapshot(exclude=('test_x.py', 'ref'))
+    if wd.neighbour_script():
+        out.label('history:earlier-test-' + wd.neighbour_script())
+        r3 = wd.run_neighbour()
+        if r3.returncode != 0:
+            out.violate('pre-existing-files-untouched', 'earlier-test-fails',
+                        'the test generated earlier in this directory (%s) '
+                        'no longer passes: %s'
+                        % (wd.neighbour_script(),
+                           (r3.stderr or r3.stdout)[-500:]))
+    after = wd.snapshot(exclude=('test_x.py', os.path.join('ref', 'x')))
+    outs = {wd.out_name(f): f for f in case['files']}
+    if wd.preexisting:
+        out.label('history:outputs-exist-and-are-rewritten-with-old-mtime')
     for (rel, h) in before.items():
+        if rel in outs:
+            continue        # (rewritten by the command itself; see below)
         if rel not in after:
             out.violate('pre-existing-files-untouched', 'removed',
                         '%s was removed' % rel)
